@@ -11,6 +11,9 @@ impl<'a> Tape<'a> {
     pub fn new(d: &'a [u8]) -> Self {
         Tape { d, p: 0 }
     }
+    pub fn exhausted(&self) -> bool {
+        self.p >= self.d.len()
+    }
     pub fn byte(&mut self) -> u8 {
         let b = self.d.get(self.p).copied().unwrap_or(0);
         self.p += 1;
@@ -22,18 +25,24 @@ impl<'a> Tape<'a> {
     pub fn u32(&mut self) -> u32 {
         ((self.u16() as u32) << 16) | self.u16() as u32
     }
+    pub fn u64(&mut self) -> u64 {
+        ((self.u32() as u64) << 32) | self.u32() as u64
+    }
+    /// uniform-ish in 0..n, monotone in the tape octets (never `%`)
     pub fn below(&mut self, n: usize) -> usize {
         if n <= 1 {
             return 0;
         }
         if n <= 256 {
             (self.byte() as usize * n) >> 8
-        } else {
+        } else if n <= 65536 {
             (self.u16() as usize * n) >> 16
+        } else {
+            ((self.u32() as u64 * n as u64) >> 32) as usize
         }
     }
+    /// true with probability pct/100; false is the simple alternative
     pub fn chance(&mut self, pct: usize) -> bool {
-        // choice 0 (false) is the simple alternative
         self.below(100) >= 100 - pct
     }
     pub fn b_u16(&mut self) -> u16 {
@@ -58,6 +67,15 @@ impl<'a> Tape<'a> {
             _ => self.u32(),
         }
     }
+    pub fn b_u64(&mut self) -> u64 {
+        match self.below(6) {
+            0 => 0,
+            1 => self.byte() as u64,
+            2 => u64::MAX,
+            3 => 1u64 << self.below(64),
+            _ => self.u64(),
+        }
+    }
     pub fn blob(&mut self, len: usize) -> Vec<u8> {
         match self.below(4) {
             0 => vec![0u8; len],
@@ -69,14 +87,18 @@ impl<'a> Tape<'a> {
             _ => (0..len).map(|_| self.byte()).collect(),
         }
     }
+    pub fn raw(&mut self, len: usize) -> Vec<u8> {
+        (0..len).map(|_| self.byte()).collect()
+    }
+    /// exactly `len` octets of valid UTF-8 drawn from 1-, 2-, 3- and 4-octet scalars
     pub fn utf8(&mut self, len: usize) -> String {
-        // exactly `len` octets of valid UTF-8
-        let mut s = String::new();
+        let mut s = String::with_capacity(len);
+        let ascii_only = self.below(3) == 0;
         while s.len() < len {
             let room = len - s.len();
-            let k = self.below(room.min(4)) + 1;
+            let k = if ascii_only { 1 } else { self.below(room.min(4)) + 1 };
             let c = match k {
-                1 => (0x20 + self.below(0x5f)) as u32,
+                1 => self.below(0x80) as u32, // includes NUL and control characters
                 2 => 0x80 + self.below(0x780) as u32,
                 3 => {
                     let c = 0x800 + self.below(0xf800) as u32;
@@ -86,27 +108,29 @@ impl<'a> Tape<'a> {
                         c
                     }
                 }
-                _ => 0x10000 + self.below(0xffff) as u32 * 16,
+                _ => 0x10000 + self.below(0x10_0000) as u32,
             };
             s.push(char::from_u32(c).unwrap_or('?'));
         }
         if s.len() != len {
-            // fix up with ascii
-            s.truncate(0);
+            s.clear();
             for _ in 0..len {
                 s.push('a');
             }
         }
         s
     }
+    /// a length in 1..=max with extra mass on the small values and on the interesting boundaries
     pub fn var_len(&mut self, max: usize) -> usize {
-        let v = match self.below(10) {
+        let v = match self.below(12) {
             0 => 1,
-            1 => 249,
-            2 => 250,
+            1 => 249, // total AVP length 255
+            2 => 250, // total AVP length 256
             3 => max,
-            4 => max - 1,
+            4 => max.saturating_sub(1),
             5 => 1 + self.below(max),
+            6 => 505,
+            7 => 506,
             _ => 1 + self.below(24),
         };
         v.clamp(1, max)
@@ -117,8 +141,11 @@ pub const ASSIGNED: [u16; 39] = [
     0, 1, 2, 3, 4, 5, 6, 7, 8, 9, 10, 11, 12, 13, 14, 15, 16, 17, 18, 19, 21, 22, 23, 24, 25, 26, 27, 28, 29, 30, 31, 32, 33, 34, 35, 36, 37, 38, 39,
 ];
 
-/// a valid value of the given kind (encodable domain)
-pub fn gen_body(t: &mut Tape, attr: u16) -> Body {
+/// largest payload an AVP can carry (1023 - 6)
+pub const MAX_PAYLOAD: usize = 1017;
+
+/// a valid value of the given kind, in the encodable domain, payload at most `max` octets
+pub fn gen_body_max(t: &mut Tape, attr: u16, max: usize) -> Body {
     match fmt_of(attr).unwrap() {
         Fmt::MsgType => Body::U16(MSG_TYPES[t.below(14)]),
         Fmt::ResultCode => {
@@ -127,8 +154,12 @@ pub fn gen_body(t: &mut Tape, attr: u16) -> Body {
                 0 => None,
                 1 => Some((t.below(9) as u16, None)),
                 _ => {
-                    let n = t.var_len(1017 - 4);
-                    Some((t.below(9) as u16, Some(t.utf8(n))))
+                    if max <= 4 {
+                        Some((t.below(9) as u16, None))
+                    } else {
+                        let n = t.var_len(max - 4);
+                        Some((t.below(9) as u16, Some(t.utf8(n))))
+                    }
                 }
             };
             Body::ResultCode { code, error }
@@ -136,20 +167,20 @@ pub fn gen_body(t: &mut Tape, attr: u16) -> Body {
         Fmt::ProtoVer => Body::ProtoVer(t.byte(), t.byte()),
         Fmt::U16 => Body::U16(t.b_u16()),
         Fmt::U32 => Body::U32(t.b_u32()),
-        Fmt::U64 => Body::U64(((t.b_u32() as u64) << 32) | t.b_u32() as u64),
+        Fmt::U64 => Body::U64(t.b_u64()),
         Fmt::Blob => {
-            let n = t.var_len(1017);
+            let n = t.var_len(max);
             Body::Blob(t.blob(n))
         }
         Fmt::Text => {
-            let n = t.var_len(1017);
+            let n = t.var_len(max);
             Body::Text(t.utf8(n))
         }
         Fmt::Q931 => {
             let cause = t.b_u16();
             let msg = t.byte();
-            let advisory = if t.chance(50) {
-                let n = t.var_len(1017 - 3);
+            let advisory = if t.chance(50) && max > 3 {
+                let n = t.var_len(max - 3);
                 Some(t.utf8(n))
             } else {
                 None
@@ -169,40 +200,422 @@ pub fn gen_body(t: &mut Tape, attr: u16) -> Body {
     }
 }
 
+pub fn gen_body(t: &mut Tape, attr: u16) -> Body {
+    gen_body_max(t, attr, MAX_PAYLOAD)
+}
+
+/// G-val: one AVP in the encodable domain (all 39 kinds + opaque hidden AVPs of any type)
 pub fn gen_avp(t: &mut Tape) -> SAvp {
     if t.chance(8) {
         let attr = t.b_u16();
-        let n = t.var_len(1017);
+        let n = t.var_len(MAX_PAYLOAD);
         return SAvp { attr, hidden: true, body: Body::Opaque(t.blob(n)) };
     }
     let attr = ASSIGNED[t.below(39)];
     SAvp { attr, hidden: false, body: gen_body(t, attr) }
 }
 
+/// a non-hidden AVP of any of the 39 kinds
+pub fn gen_plain_avp(t: &mut Tape) -> SAvp {
+    let attr = ASSIGNED[t.below(39)];
+    SAvp { attr, hidden: false, body: gen_body(t, attr) }
+}
+
+pub fn avp_wire_len(a: &SAvp) -> usize {
+    let mut p = Vec::new();
+    encode_payload(&a.body, &mut p);
+    6 + p.len()
+}
+
+pub fn msg_type_avp(t: &mut Tape) -> SAvp {
+    SAvp { attr: 0, hidden: false, body: gen_body(t, 0) }
+}
+
+/// G-val: a control message, 0 .. ~70 AVPs, built under the 65 535-octet budget, first AVP a Message Type
 pub fn gen_control(t: &mut Tape) -> SMsg {
     let k = match t.below(8) {
         0 => 0,
         7 => 1 + t.below(70),
         _ => 1 + t.below(6),
     };
+    gen_control_k(t, k)
+}
+
+pub fn gen_control_k(t: &mut Tape, k: usize) -> SMsg {
     let mut avps = Vec::new();
     let mut budget = 65535usize - 12;
     for i in 0..k {
-        let a = if i == 0 { SAvp { attr: 0, hidden: false, body: gen_body(t, 0) } } else { gen_avp(t) };
-        let mut w = Vec::new();
-        encode_avp(&a, &mut w);
-        if w.len() > budget {
+        let a = if i == 0 { msg_type_avp(t) } else { gen_avp(t) };
+        let l = avp_wire_len(&a);
+        if l > budget {
             break;
         }
-        budget -= w.len();
+        budget -= l;
         avps.push(a);
     }
     SMsg::Control { length: 0, tunnel: t.b_u16(), session: t.b_u16(), ns: t.b_u16(), nr: t.b_u16(), avps }
 }
 
+/// a control message that comes close to (or exactly hits) the 65 535-octet limit
+pub fn gen_control_big(t: &mut Tape) -> SMsg {
+    let mut avps = vec![msg_type_avp(t)];
+    let mut budget = 65535usize - 12 - 8;
+    let exact = t.chance(50);
+    while budget >= 7 {
+        let max = (budget - 6).min(MAX_PAYLOAD);
+        // keep 0 or >= 7 octets of budget so the message can be completed exactly
+        let mut n = if t.chance(70) { max } else { 1 + t.below(max) };
+        if budget - 6 - n != 0 && budget - 6 - n < 7 {
+            n = if budget - 6 >= 7 + 1 { budget - 6 - 7 } else { budget - 6 };
+            n = n.clamp(1, max);
+        }
+        let attr = [7u16, 11, 26, 30, 37][t.below(5)];
+        avps.push(SAvp { attr, hidden: false, body: Body::Blob(t.blob(n)) });
+        budget -= 6 + n;
+        if !exact && budget < 3000 && t.chance(30) {
+            break;
+        }
+    }
+    SMsg::Control { length: 0, tunnel: t.b_u16(), session: t.b_u16(), ns: t.b_u16(), nr: t.b_u16(), avps }
+}
+
+/// G-data: a data message in the round-trip domain (length absent or exact, offset absent or n <= |data|-1)
 pub fn gen_data(t: &mut Tape) -> SMsg {
     let prio = t.chance(50);
     let has_len = t.chance(50);
+    let ns_nr = if t.chance(50) { Some((t.b_u16(), t.b_u16())) } else { None };
+    let has_off = t.chance(40);
+    let hdr = 6 + if has_len { 2 } else { 0 } + if ns_nr.is_some() { 4 } else { 0 } + if has_off { 2 } else { 0 };
+    let max_n = if has_len { 65535 - hdr } else { 70000 };
+    let n = match t.below(40) {
+        0 => max_n,                    // message of exactly 65 535 octets when L is set
+        1 => 1 + t.below(max_n),       // anywhere
+        2 | 3 => 1 + t.below(3000),
+        4 => 1,
+        _ => 1 + t.below(64),
+    };
+    let data = if n > 4096 { (0..n).map(|i| (i as u8) ^ 0x5a).collect() } else { t.blob(n) };
+    let offset = if has_off {
+        Some(match t.below(4) {
+            0 => 0,
+            1 => (n - 1).min(65535) as u16,
+            _ => t.below(n.min(65536)) as u16,
+        })
+    } else {
+        None
+    };
+    let mut m = SMsg::Data { prio, length: None, tunnel: t.b_u16(), session: t.b_u16(), ns_nr, offset, data };
+    if has_len {
+        let l = encode_message(&m).len() + 2;
+        if let SMsg::Data { length, .. } = &mut m {
+            *length = Some(l as u16);
+        }
+    }
+    m
+}
+
+/// what a generated AVP record is meant to be
+#[derive(Clone, Debug, PartialEq, Eq)]
+pub struct RecInfo {
+    /// the record's own length field equals its extent
+    pub well_delimited: bool,
+}
+
+/// G-rec: an AVP record on the wire, possibly malformed; `allow_bad_len` permits an unusable length field
+pub fn gen_record_opt(t: &mut Tape, w: &mut Vec<u8>, allow_bad_len: bool) -> RecInfo {
+    let attr = match t.below(20) {
+        0 => 20,
+        1 => 40 + t.below(4) as u16,
+        2 => t.u16(),
+        _ => ASSIGNED[t.below(39)],
+    };
+    let min = fmt_of(attr).map(min_len).unwrap_or(0);
+    let plen = match t.below(10) {
+        0 => min.saturating_sub(1),
+        1 => min,
+        2 => min + 1,
+        3 => 0,
+        4 => min + t.below(30),
+        5 => t.below(300),
+        _ => usize::MAX, // a valid value of the kind
+    };
+    let mut payload = if plen == usize::MAX {
+        match fmt_of(attr) {
+            Some(_) => {
+                let mut p = Vec::new();
+                encode_payload(&gen_body_max(t, attr, 300), &mut p);
+                p
+            }
+            None => {
+                let n = t.below(20);
+                t.blob(n)
+            }
+        }
+    } else {
+        let mut p = Vec::new();
+        if fmt_of(attr).is_some() {
+            encode_payload(&gen_body_max(t, attr, 300), &mut p);
+        }
+        while p.len() < plen {
+            p.push(t.byte());
+        }
+        p.truncate(plen);
+        p
+    };
+    if payload.len() > MAX_PAYLOAD {
+        payload.truncate(MAX_PAYLOAD);
+    }
+    if t.chance(10) && !payload.is_empty() {
+        // corrupt an octet (invalid UTF-8 / bad enumerated code)
+        let i = t.below(payload.len());
+        payload[i] = 0xff - (t.byte() & 0x3f);
+    }
+    let true_len = 6 + payload.len();
+    let len = if allow_bad_len {
+        match t.below(64) {
+            0 => t.below(6),
+            1 => true_len + 1,
+            2 => true_len.saturating_sub(1),
+            3 => 0x3ff,
+            4 => true_len + t.below(40),
+            _ => true_len,
+        }
+        .min(0x3ff)
+    } else {
+        true_len
+    };
+    let mut o1 = (((len >> 8) as u8) << 6) | (t.byte() & 0x01);
+    if t.chance(10) {
+        o1 |= 0x02;
+    }
+    if t.chance(15) {
+        o1 |= t.byte() & 0x3c;
+    }
+    let vendor = if t.chance(8) { 1 + t.below(65535) as u16 } else { 0 };
+    w.extend_from_slice(&[o1, len as u8]);
+    w.extend_from_slice(&vendor.to_be_bytes());
+    w.extend_from_slice(&attr.to_be_bytes());
+    w.extend_from_slice(&payload);
+    RecInfo { well_delimited: len == true_len }
+}
+
+pub fn gen_record(t: &mut Tape, w: &mut Vec<u8>) -> RecInfo {
+    gen_record_opt(t, w, true)
+}
+
+/// offsets of the AVP records of a control message (walking the length fields, best effort)
+fn avp_offsets(b: &[u8]) -> Vec<usize> {
+    let mut v = Vec::new();
+    if b.len() < 12 || b[0] & 0x01 == 0 {
+        return v;
+    }
+    let mut p = 12;
+    while p + 6 <= b.len() && v.len() < 200 {
+        v.push(p);
+        let len = (((b[p] >> 6) as usize) << 8) | b[p + 1] as usize;
+        if len < 6 {
+            break;
+        }
+        p += len;
+    }
+    v
+}
+
+pub fn mutate(t: &mut Tape, b: &mut Vec<u8>) {
+    if b.is_empty() {
+        return;
+    }
+    match t.below(12) {
+        0 => {
+            let i = t.below(b.len());
+            b[i] ^= 1 << t.below(8);
+        }
+        1 => {
+            // flag-word bits
+            if b.len() >= 2 {
+                let w = ((b[0] as u16) << 8) | b[1] as u16;
+                let w = match t.below(6) {
+                    0 => w ^ (1 << t.below(16)),
+                    1 => w ^ T,
+                    2 => w | [P, O, 0x2000, 0x0800, 0x0400, 0x0008, 0x0004, 0x0002, 0x0001][t.below(9)],
+                    3 => (w & 0xff0f) | ((t.below(16) as u16) << 4),
+                    4 => w & !(L | S),
+                    _ => w ^ [L, S, O, P][t.below(4)],
+                };
+                b[0] = (w >> 8) as u8;
+                b[1] = w as u8;
+            }
+        }
+        2 => {
+            // message length field
+            if b.len() >= 4 {
+                let cur = ((b[2] as usize) << 8) | b[3] as usize;
+                let v = match t.below(14) {
+                    0 => 0,
+                    1 => 1,
+                    2 => 11,
+                    3 => 12,
+                    4 => 13,
+                    5 => cur + 1,
+                    6 => cur.saturating_sub(1),
+                    7 => cur + 6,
+                    8 => cur.saturating_sub(6),
+                    9 => cur + 2,
+                    10 => cur.saturating_sub(2),
+                    11 => b.len(),
+                    12 => t.below(20),
+                    _ => 0xffff,
+                }
+                .min(0xffff);
+                b[2] = (v >> 8) as u8;
+                b[3] = v as u8;
+            }
+        }
+        3 => {
+            let n = t.below(b.len() + 1);
+            b.truncate(n);
+        }
+        4 => {
+            let n = t.below(64);
+            let x = t.blob(n);
+            b.extend_from_slice(&x);
+        }
+        5 => {
+            // patch a u16 with a boundary value
+            if b.len() >= 2 {
+                let i = t.below(b.len() - 1);
+                let v = t.b_u16();
+                b[i] = (v >> 8) as u8;
+                b[i + 1] = v as u8;
+            }
+        }
+        6 => {
+            // patch the length field of one AVP record
+            let offs = avp_offsets(b);
+            if !offs.is_empty() {
+                let p = offs[t.below(offs.len())];
+                let cur = (((b[p] >> 6) as usize) << 8) | b[p + 1] as usize;
+                let v = match t.below(8) {
+                    0 => t.below(8),
+                    1 => cur + 1,
+                    2 => cur.saturating_sub(1),
+                    3 => 0x3ff,
+                    4 => 6,
+                    5 => 5,
+                    6 => 0,
+                    _ => cur + t.below(32),
+                }
+                .min(0x3ff);
+                b[p] = (b[p] & 0x3f) | (((v >> 8) as u8) << 6);
+                b[p + 1] = v as u8;
+            }
+        }
+        7 => {
+            let i = t.below(b.len());
+            b[i] = t.byte();
+        }
+        8 => {
+            // duplicate a slice
+            let i = t.below(b.len());
+            let n = 1 + t.below((b.len() - i).min(40));
+            let s = b[i..i + n].to_vec();
+            let at = t.below(b.len() + 1);
+            let tail = b.split_off(at);
+            b.extend_from_slice(&s);
+            b.extend_from_slice(&tail);
+        }
+        9 => {
+            // patch header bits / vendor / type of one AVP record
+            let offs = avp_offsets(b);
+            if !offs.is_empty() {
+                let p = offs[t.below(offs.len())];
+                match t.below(4) {
+                    0 => b[p] ^= 0x02,
+                    1 => b[p] ^= 1 << (2 + t.below(4)),
+                    2 => b[p + 3] = 1 + (t.byte() & 0x7f),
+                    _ => {
+                        let ty = if t.chance(50) { ASSIGNED[t.below(39)] } else { t.b_u16() };
+                        b[p + 4] = (ty >> 8) as u8;
+                        b[p + 5] = ty as u8;
+                    }
+                }
+            }
+        }
+        10 => {
+            // append another whole message
+            let m = if t.chance(50) { encode_message(&gen_control_k(t, 2)) } else { encode_message(&gen_data_small(t)) };
+            if m.len() < 4000 {
+                b.extend_from_slice(&m);
+            }
+        }
+        _ => {
+            let mut extra = Vec::new();
+            gen_record(t, &mut extra);
+            b.extend_from_slice(&extra);
+        }
+    }
+}
+
+/// control header (canonical flags, Length = total) around an AVP region
+pub fn control_around(t: &mut Tape, body: &[u8]) -> Vec<u8> {
+    let mut w = vec![0x13, 0x20, 0, 0];
+    for _ in 0..4 {
+        w.extend_from_slice(&t.b_u16().to_be_bytes());
+    }
+    w.extend_from_slice(body);
+    let l = w.len().min(65535);
+    w[2] = (l >> 8) as u8;
+    w[3] = l as u8;
+    w
+}
+
+/// G-wire: message octets, mostly near-valid
+pub fn gen_wire(t: &mut Tape) -> Vec<u8> {
+    let mut b = match t.below(20) {
+        0..=7 => encode_message(&gen_control(t)),
+        8..=11 => {
+            let m = gen_data_small(t);
+            encode_message(&m)
+        }
+        12..=16 => {
+            // control header + record list
+            let k = t.below(6);
+            let mut body = Vec::new();
+            if t.chance(85) {
+                encode_avp(&msg_type_avp(t), &mut body);
+            }
+            for _ in 0..k {
+                gen_record(t, &mut body);
+            }
+            if t.chance(20) {
+                let tail = t.below(8);
+                for _ in 0..tail {
+                    body.push(t.byte());
+                }
+            }
+            control_around(t, &body)
+        }
+        17 => encode_noncanon(t).0,
+        _ => {
+            let n = t.below(48);
+            t.raw(n)
+        }
+    };
+    let k = match t.below(4) {
+        0 | 1 => 0,
+        2 => 1,
+        _ => 1 + t.below(3),
+    };
+    for _ in 0..k {
+        mutate(t, &mut b);
+    }
+    b
+}
+
+/// G-data restricted to payloads that keep inputs small (for wire mutation)
+pub fn gen_data_small(t: &mut Tape) -> SMsg {
+    let prio = t.chance(50);
+    let has_len = t.chance(60);
     let ns_nr = if t.chance(50) { Some((t.b_u16(), t.b_u16())) } else { None };
     let n = 1 + if t.chance(5) { t.below(3000) } else { t.below(40) };
     let data = t.blob(n);
@@ -225,197 +638,280 @@ pub fn gen_data(t: &mut Tape) -> SMsg {
     m
 }
 
-/// an AVP record on the wire, possibly malformed
-pub fn gen_record(t: &mut Tape, w: &mut Vec<u8>) {
-    let attr = match t.below(20) {
-        0 => 20,
-        1 => 40 + t.below(4) as u16,
-        2 => t.u16(),
+// ---------------------------------------------------------------- G-noncanon
+
+/// Which normalisations a dressed encoding exercises
+#[derive(Default, Clone, Debug)]
+pub struct Dress {
+    pub reserved_flag_bits: bool,
+    pub version_not_2: bool,
+    pub ctrl_p_or_o: bool,
+    pub m_unset: bool,
+    pub avp_reserved_bits: bool,
+    pub surplus: bool,
+    pub reserved_octets: bool,
+    pub trailing_in_region: usize,
+    pub after_length: usize,
+}
+
+/// AVP with a non-canonical but equivalent wire form: M unset, reserved bits, surplus payload on
+/// fixed-size kinds, junk reserved octets.
+pub fn encode_avp_dressed(t: &mut Tape, a: &SAvp, w: &mut Vec<u8>, d: &mut Dress) {
+    let mut p = Vec::new();
+    encode_payload(&a.body, &mut p);
+    if !a.hidden {
+        match fmt_of(a.attr) {
+            Some(Fmt::ProxyId) if t.chance(40) => {
+                p[0] = t.byte();
+                d.reserved_octets |= p[0] != 0;
+            }
+            Some(Fmt::CallErrors) | Some(Fmt::Accm) if t.chance(40) => {
+                p[0] = t.byte();
+                p[1] = t.byte();
+                d.reserved_octets |= p[0] != 0 || p[1] != 0;
+            }
+            _ => {}
+        }
+        let surplus_ok = match fmt_of(a.attr) {
+            Some(Fmt::MsgType) | Some(Fmt::ProtoVer) | Some(Fmt::U16) | Some(Fmt::U32) | Some(Fmt::U64) | Some(Fmt::Fixed(_)) | Some(Fmt::ProxyType) | Some(Fmt::ProxyId) | Some(Fmt::CallErrors)
+            | Some(Fmt::Accm) | Some(Fmt::Empty) => usize::MAX,
+            // a result code without error part tolerates exactly one surplus octet
+            Some(Fmt::ResultCode) if p.len() == 2 => 1,
+            _ => 0,
+        };
+        if surplus_ok > 0 && t.chance(35) {
+            let k = (1 + t.below(12)).min(surplus_ok).min(MAX_PAYLOAD - p.len());
+            for _ in 0..k {
+                p.push(t.byte());
+            }
+            d.surplus |= k > 0;
+        }
+    }
+    let len = 6 + p.len();
+    let mut o1 = (((len >> 8) as u8) << 6) | ((a.hidden as u8) << 1);
+    if t.chance(60) {
+        o1 |= 0x01;
+    } else {
+        d.m_unset = true;
+    }
+    if t.chance(30) {
+        let r = t.byte() & 0x3c;
+        o1 |= r;
+        d.avp_reserved_bits |= r != 0;
+    }
+    w.extend_from_slice(&[o1, len as u8, 0, 0]);
+    w.extend_from_slice(&a.attr.to_be_bytes());
+    w.extend_from_slice(&p);
+}
+
+/// G-noncanon: (octets, options under which they are accepted, the specified value, what was dressed)
+pub fn encode_noncanon(t: &mut Tape) -> (Vec<u8>, Opts, SMsg, Dress) {
+    let mut d = Dress::default();
+    let mut o = Opts { reserved: t.chance(50), version: t.chance(50), unused: t.chance(50) };
+    if t.chance(70) {
+        let k = t.below(6);
+        let m = gen_control_k(t, k);
+        let (tunnel, session, ns, nr, avps) = match &m {
+            SMsg::Control { tunnel, session, ns, nr, avps, .. } => (*tunnel, *session, *ns, *nr, avps.clone()),
+            _ => unreachable!(),
+        };
+        let mut f = T | L | S | 0x0020;
+        if !o.reserved && t.chance(60) {
+            let r = t.u16() & RESERVED;
+            f |= r;
+            d.reserved_flag_bits = r != 0;
+        }
+        if !o.version && t.chance(50) {
+            let v = t.below(16) as u16;
+            f = (f & 0xff0f) | (v << 4);
+            d.version_not_2 = v != 2;
+        }
+        if !o.unused && t.chance(50) {
+            f |= [P, O, P | O][t.below(3)];
+            d.ctrl_p_or_o = true;
+        }
+        let mut w = Vec::new();
+        w.extend_from_slice(&f.to_be_bytes());
+        w.extend_from_slice(&[0, 0]);
+        for x in [tunnel, session, ns, nr] {
+            w.extend_from_slice(&x.to_be_bytes());
+        }
+        for a in &avps {
+            encode_avp_dressed(t, a, &mut w, &mut d);
+        }
+        if t.chance(25) {
+            let k = 1 + t.below(5);
+            for _ in 0..k {
+                w.push(t.byte());
+            }
+            d.trailing_in_region = k;
+        }
+        let l = w.len();
+        w[2] = (l >> 8) as u8;
+        w[3] = l as u8;
+        if t.chance(25) {
+            let k = 1 + t.below(20);
+            for _ in 0..k {
+                w.push(t.byte());
+            }
+            d.after_length = k;
+        }
+        let v = SMsg::Control { length: l as u16, tunnel, session, ns, nr, avps };
+        (w, o, v, d)
+    } else {
+        // data message without the O bit
+        let mut m = gen_data_small(t);
+        if let SMsg::Data { offset, length, data, ns_nr, .. } = &mut m {
+            *offset = None;
+            if length.is_some() {
+                *length = Some((6 + 2 + if ns_nr.is_some() { 4 } else { 0 } + data.len()) as u16);
+            }
+        }
+        let mut w = encode_message(&m);
+        let mut f = ((w[0] as u16) << 8) | w[1] as u16;
+        if !o.reserved && t.chance(60) {
+            let r = t.u16() & RESERVED;
+            f |= r;
+            d.reserved_flag_bits = r != 0;
+        }
+        if !o.version && t.chance(50) {
+            let v = t.below(16) as u16;
+            f = (f & 0xff0f) | (v << 4);
+            d.version_not_2 = v != 2;
+        }
+        w[0] = (f >> 8) as u8;
+        w[1] = f as u8;
+        if let SMsg::Data { length: Some(_), .. } = &m {
+            if t.chance(30) {
+                let k = 1 + t.below(20);
+                for _ in 0..k {
+                    w.push(t.byte());
+                }
+                d.after_length = k;
+            }
+        }
+        o.unused = o.unused || t.chance(50); // unused-field checking never applies to data messages
+        (w, o, m, d)
+    }
+}
+
+// ---------------------------------------------------------------- G-hide / G-hidden
+
+pub struct HideCase {
+    pub avp: SAvp,
+    pub payload: Vec<u8>,
+    pub secret: Vec<u8>,
+    pub rv: [u8; 4],
+    pub lp: Vec<u8>,
+    pub ap: [u8; 16],
+}
+
+/// G-hide: 2 + |payload| + |lp| <= 1008 by construction (payload <= 1006 first, then |lp| <= 1006 - |payload|);
+/// sizes are steered to hit block counts 1, 2, 3, >= 4 and exact multiples of 16.
+pub fn gen_hide(t: &mut Tape) -> HideCase {
+    let attr = ASSIGNED[t.below(39)];
+    let avp = SAvp { attr, hidden: false, body: gen_body_max(t, attr, 1006) };
+    let mut payload = Vec::new();
+    encode_payload(&avp.body, &mut payload);
+    let sl = match t.below(8) {
+        0 => 0,
+        1 => 1 + t.below(64),
+        2 => 16,
+        _ => 1 + t.below(20),
+    };
+    let secret = t.blob(sl);
+    let rv = t.u32().to_be_bytes();
+    let room = 1006 - payload.len();
+    let base = 2 + payload.len();
+    let lpn = match t.below(8) {
+        0 => 0,
+        1 => room,
+        2 => (16 - base % 16) % 16,                 // exact multiple of 16, no alignment padding
+        3 => ((16 - base % 16) % 16 + 16).min(room), // one more block
+        4 => ((16 - base % 16) % 16 + 1).min(room),  // one octet into the next block
+        5 => t.below(room + 1),
+        _ => t.below(room.min(64) + 1),
+    }
+    .min(room);
+    let lp = t.blob(lpn);
+    let mut ap = [0u8; 16];
+    for x in ap.iter_mut() {
+        *x = t.byte();
+    }
+    HideCase { avp, payload, secret, rv, lp, ap }
+}
+
+pub struct HiddenCase {
+    pub attr: u16,
+    pub value: Vec<u8>,
+    pub secret: Vec<u8>,
+    pub rv: [u8; 4],
+    /// Some(declared total original length) when the plaintext was crafted
+    pub crafted: Option<usize>,
+}
+
+/// G-hidden: hidden values for reveal: uniformly random ones and crafted ones whose plaintext carries a chosen
+/// original-length field (encrypted with the reference key schedule so that the crate decrypts exactly it)
+pub fn gen_hidden(t: &mut Tape) -> HiddenCase {
+    let attr = match t.below(4) {
+        0 => t.b_u16(),
         _ => ASSIGNED[t.below(39)],
     };
-    let min = fmt_of(attr).map(min_len).unwrap_or(0);
-    let plen = match t.below(10) {
-        0 => min.saturating_sub(1),
-        1 => min,
-        2 => min + 1,
-        3 => 0,
-        4 => min + t.below(30),
-        5 => t.below(300),
-        _ => usize::MAX, // valid value
+    let sl = match t.below(6) {
+        0 => 0,
+        _ => t.below(24),
     };
-    let mut payload = if plen == usize::MAX {
-        match fmt_of(attr) {
-            Some(_) => {
-                let mut p = Vec::new();
-                encode_payload(&gen_body(t, attr), &mut p);
-                p
-            }
-            None => {
-                let n = t.below(20);
-                t.blob(n)
-            }
-        }
-    } else {
-        let mut p = Vec::new();
-        if let Some(_) = fmt_of(attr) {
-            encode_payload(&gen_body(t, attr), &mut p);
-        }
-        while p.len() < plen {
+    let secret = t.blob(sl);
+    let rv = t.u32().to_be_bytes();
+    if t.chance(40) {
+        let n = match t.below(6) {
+            0 => t.below(70),
+            1 => t.below(1041),
+            2 => 16 * t.below(66) + [1, 8, 15][t.below(3)],
+            3 => 0,
+            _ => 16 * t.below(6),
+        };
+        let value = t.raw(n);
+        return HiddenCase { attr, value, secret, rv, crafted: None };
+    }
+    let blocks = match t.below(8) {
+        0 => 1 + t.below(64),
+        _ => 1 + t.below(4),
+    };
+    let n = blocks * 16;
+    let mut pt: Vec<u8> = if t.chance(50) && fmt_of(attr).is_some() {
+        // a valid payload of the kind followed by padding
+        let mut p = vec![0, 0];
+        encode_payload(&gen_body_max(t, attr, n - 2), &mut p);
+        p.truncate(n);
+        let used = p.len();
+        while p.len() < n {
             p.push(t.byte());
         }
-        p.truncate(plen);
+        let total = used - 2 + 6;
+        p[0] = (total >> 8) as u8;
+        p[1] = total as u8;
         p
+    } else {
+        t.raw(n)
     };
-    if payload.len() > 1017 {
-        payload.truncate(1017);
-    }
-    if t.chance(10) && !payload.is_empty() {
-        // corrupt a byte (invalid UTF-8 / bad code)
-        let i = t.below(payload.len());
-        payload[i] = 0xff - (t.byte() & 0x3f);
-    }
-    let true_len = 6 + payload.len();
-    let len = match t.below(24) {
-        0 => t.below(6),
-        1 => true_len + 1,
-        2 => true_len.saturating_sub(1),
-        3 => 0x3ff,
-        4 => true_len + t.below(40),
-        _ => true_len,
-    }
-    .min(0x3ff);
-    let mut o1 = (((len >> 8) as u8) << 6) | (t.byte() & 0x01);
-    if t.chance(10) {
-        o1 |= 0x02;
-    }
-    if t.chance(15) {
-        o1 |= t.byte() & 0x3c;
-    }
-    let vendor = if t.chance(8) { 1 + t.below(65535) as u16 } else { 0 };
-    w.extend_from_slice(&[o1, len as u8]);
-    w.extend_from_slice(&vendor.to_be_bytes());
-    w.extend_from_slice(&attr.to_be_bytes());
-    w.extend_from_slice(&payload);
-}
-
-pub fn mutate(t: &mut Tape, b: &mut Vec<u8>) {
-    if b.is_empty() {
-        return;
-    }
-    match t.below(9) {
-        0 => {
-            let i = t.below(b.len());
-            b[i] ^= 1 << t.below(8);
-        }
-        1 => {
-            // flag word bits
-            if b.len() >= 2 {
-                let bit = t.below(16);
-                let w = (((b[0] as u16) << 8) | b[1] as u16) ^ (1 << bit);
-                b[0] = (w >> 8) as u8;
-                b[1] = w as u8;
-            }
-        }
-        2 => {
-            // length field
-            if b.len() >= 4 {
-                let cur = ((b[2] as usize) << 8) | b[3] as usize;
-                let v = match t.below(10) {
-                    0 => 0,
-                    1 => 1,
-                    2 => 11,
-                    3 => 12,
-                    4 => 13,
-                    5 => cur + 1,
-                    6 => cur.saturating_sub(1),
-                    7 => cur + 6,
-                    8 => cur.saturating_sub(6),
-                    _ => 0xffff,
-                };
-                b[2] = (v >> 8) as u8;
-                b[3] = v as u8;
-            }
-        }
-        3 => {
-            let n = t.below(b.len() + 1);
-            b.truncate(n);
-        }
-        4 => {
-            let n = t.below(40);
-            let x = t.blob(n);
-            b.extend_from_slice(&x);
-        }
-        5 => {
-            // patch an aligned u16 with a boundary value
-            if b.len() >= 2 {
-                let i = t.below(b.len() - 1);
-                let v = t.b_u16();
-                b[i] = (v >> 8) as u8;
-                b[i + 1] = v as u8;
-            }
-        }
-        6 => {
-            // first AVP length (offset 12,13)
-            if b.len() >= 14 {
-                let v = t.below(9);
-                b[12] &= 0x3f;
-                b[13] = v as u8;
-            }
-        }
-        7 => {
-            let i = t.below(b.len());
-            b[i] = t.byte();
-        }
-        _ => {
-            let mut extra = Vec::new();
-            gen_record(t, &mut extra);
-            b.extend_from_slice(&extra);
-        }
-    }
-}
-
-pub fn gen_wire(t: &mut Tape) -> Vec<u8> {
-    let mut b = match t.below(10) {
-        0..=3 => encode_message(&gen_control(t)),
-        4 | 5 => encode_message(&gen_data(t)),
-        6..=8 => {
-            // control header + record list
-            let k = t.below(6);
-            let mut body = Vec::new();
-            if t.chance(85) {
-                encode_avp(&SAvp { attr: 0, hidden: false, body: gen_body(t, 0) }, &mut body);
-            }
-            for _ in 0..k {
-                gen_record(t, &mut body);
-            }
-            let tail = t.below(8);
-            if t.chance(20) {
-                for _ in 0..tail {
-                    body.push(t.byte());
-                }
-            }
-            let mut w = vec![0x13, 0x20, 0, 0];
-            for _ in 0..4 {
-                w.extend_from_slice(&t.b_u16().to_be_bytes());
-            }
-            w.extend_from_slice(&body);
-            let l = w.len().min(65535);
-            w[2] = (l >> 8) as u8;
-            w[3] = l as u8;
-            w
-        }
-        _ => {
-            let n = t.below(48);
-            (0..n).map(|_| t.byte()).collect()
-        }
+    let avail = n - 2;
+    let cur = ((pt[0] as usize) << 8) | pt[1] as usize;
+    let total = match t.below(12) {
+        0 => 5,
+        1 => 6,
+        2 => avail + 6,
+        3 => avail + 7,
+        4 => 1023,
+        5 => 1024,
+        6 => 6 + t.below(avail + 1),
+        7 => t.u16() as usize,
+        8 => 0,
+        9 => avail + 5,
+        _ => cur,
     };
-    let k = match t.below(4) {
-        0 | 1 => 0,
-        2 => 1,
-        _ => 1 + t.below(3),
-    };
-    for _ in 0..k {
-        mutate(t, &mut b);
-    }
-    b
+    pt[0] = (total >> 8) as u8;
+    pt[1] = total as u8;
+    let value = encrypt_raw(attr, &pt, &secret, &rv);
+    HiddenCase { attr, value, secret, rv, crafted: Some(total) }
 }
